@@ -268,7 +268,9 @@ class KnownFindings:
 def write_replay(prop: str, seed: int, payload: dict) -> str:
     d = os.path.join(VERIF, "replays")
     os.makedirs(d, exist_ok=True)
-    p = os.path.join(d, "%s-%d.json" % (prop, seed))
+    v = payload.get("violation", {})
+    tag = "%08x" % zlib.crc32(("%s|%s" % (v.get("class"), v.get("site"))).encode())
+    p = os.path.join(d, "%s-%d-%s.json" % (prop, seed, tag))
     with open(p, "w") as f:
         json.dump(payload, f, indent=1, sort_keys=True, default=_json_default)
     return p
